@@ -154,7 +154,9 @@ static void doOpen(const Op& op) {
   std::vector<std::string> w; { Host h; int n = 1 + (int)(seed % 4); seed /= 4; w.push_back("prog"); for (int i = 1; i < n; ++i) { w.push_back(words[1 + seed % 8]); seed /= 8; } }
   bool ok = false;
   if (kind == 0 || kind == 4) {           // command line forms
-    std::string cmd; { Host h; for (size_t i = 0; i < w.size(); ++i) { if (i) cmd += ' '; cmd += quote(w[i]); } C.expArgv = refSplit(cmd); C.expProgram = C.expArgv.empty() ? "" : C.expArgv[0]; }
+    /* some words are written the way people write them by hand: a quoted segment in the middle or at the start of a word, two segments in one word, a backslash that escapes nothing */
+    static const char* frags[] = {"--name=\"v w\".txt", "\"a\"\"b\"", "pre\"a b\"", "\"a b\"c", "\"say \\\"hi\\\"\"!", "\"dir\\sub x\"", "x\\y", "\"\"z"};
+    std::string cmd; { Host h; uint64_t r = seed; for (size_t i = 0; i < w.size(); ++i) { if (i) cmd += ' '; if (i && r % 3 == 0) { cmd += frags[(r / 3) % 8]; probe("command_line_handwritten_word"); } else cmd += quote(w[i]); r /= 24; } C.expArgv = refSplit(cmd); C.expProgram = C.expArgv.empty() ? "" : C.expArgv[0]; }
     if (kind == 0) ok = C.proc->open(S(cmd), C.streams, env); else { C.streams = 0; ok = C.proc->start(S(cmd), env) != 0; }
   } else {
     int n = (int)w.size(); bool trailingNull = kind == 2; char** argv = new char*[n + 1];
@@ -245,7 +247,7 @@ static void drainAndJoin() {
 static void mainTask(void*) {
   const RunSpec& s = *C.spec;
   simproc::setPipeCapacity((size_t)simdrv::knob(s, "pipe_cap", 65536)); simproc::setStdinReadable(simdrv::knob(s, "stdin_readable", 0) != 0);
-  simproc::setChildMain(childProgram);
+  simproc::setChildMain(childProgram); simproc::setParentStdoutPending("a line the parent has printed but not flushed yet\n");
   if (simdrv::knob(s, "mode", 0) == 1) { for (size_t i = 0; i < s.plan.size(); ++i) if (s.plan[i].code == A_PARSE) argumentsOp((uint64_t)s.plan[i].a[0] * 1000003ULL + (uint64_t)s.plan[i].a[1]); C.parentDone = true; return; }
   C.proc = new Process;
   unsigned char buf[4096];
